@@ -305,6 +305,41 @@ fn c07_strings(job: &Job, sh: &mut Shard, t0: Instant) {
     }
 }
 
+/// Every byte value at every position of a set of well-formed messages: the short strings use 12
+/// symbols, this asks what each of the 256 byte values means in the place of a type byte, a sign,
+/// a digit, a CR, an LF or a payload byte.
+fn c07_substitutions(job: &Job, sh: &mut Shard) {
+    let mut base = request_set();
+    for m in [&b":0\r\n"[..], b":+7\r\n", b":1234567890\r\n", b"$3\r\nabc\r\n", b"$0\r\n\r\n", b"$10\r\n0123456789\r\n", b"*-1\r\n", b"*1\r\n$1\r\na\r\n", b"*12\r\n", b"*3\r\n:1\r\n+a\r\n-b\r\n"] {
+        base.push(m.to_vec());
+    }
+    let mut i = 0usize;
+    for m in &base {
+        for pos in 0..m.len() {
+            i += 1;
+            if i % job.nshards != job.shard {
+                continue;
+            }
+            for b in 0..=255u8 {
+                if b == m[pos] {
+                    continue;
+                }
+                let mut x = m.clone();
+                x[pos] = b;
+                sh.evaluations += 1;
+                sh.transitions += 2;
+                let v = judge_input(&x, false);
+                if v.is_empty() {
+                    sh.outcome(format!("subst:{:?}", matches!(call_parse(&x), PRes::Ok(..))));
+                }
+                for (c, msg) in v {
+                    viol(sh, "C07", &c, msg, &x, &format!("byte {:#04x} in place of {:#04x} at offset {} of a well-formed message", b, m[pos], pos));
+                }
+            }
+        }
+    }
+}
+
 fn c07_numbers(job: &Job, sh: &mut Shard) {
     let grid = number_grid();
     let mut n = 0u64;
@@ -716,7 +751,8 @@ pub enum SEv {
     Data(Vec<u8>),
     Pending,
     Eof,
-    IoErr,
+    /// the transport reports an error instead of data (a reset by the peer, a timeout, ...)
+    IoErr(std::io::ErrorKind),
 }
 
 #[derive(Default)]
@@ -748,7 +784,7 @@ impl AsyncRead for ScriptStream {
                 st.script.push_front(SEv::Eof);
                 Poll::Ready(Ok(()))
             }
-            Some(SEv::IoErr) => Poll::Ready(Err(std::io::Error::new(std::io::ErrorKind::Other, "scripted error"))),
+            Some(SEv::IoErr(k)) => Poll::Ready(Err(std::io::Error::new(k, "scripted error"))),
             Some(SEv::Data(d)) => {
                 let n = d.len().min(buf.remaining());
                 buf.put_slice(&d[..n]);
@@ -1141,6 +1177,32 @@ fn c08(job: &Job, sh: &mut Shard, t0: Instant) {
                     };
                     viol8(sh, class, format!("prefix of {} bytes then EOF: decoded {} then {:?}", k, show_frames(&got), end), frames, json!({"prefix": k, "whole": whole, "then": "eof"}));
                 }
+                // (iii) the transport fails (the peer resets the connection, ...): inside a frame that
+                // is an error as well, never a clean end; between frames either answer is accepted
+                if whole {
+                    use std::io::ErrorKind as K;
+                    for kind in [K::ConnectionReset, K::ConnectionAborted, K::BrokenPipe, K::TimedOut, K::UnexpectedEof, K::Other] {
+                        sh.evaluations += 1;
+                        let mut s3: Vec<SEv> = vec![SEv::Data(enc[..k].to_vec())];
+                        s3.push(SEv::IoErr(kind));
+                        s3.push(SEv::Eof);
+                        let (got, end) = read_all(s3);
+                        let ok = got == complete && match &end {
+                            ReadEnd::Error(_) => true,
+                            ReadEnd::CleanEof => at_boundary,
+                            _ => false,
+                        };
+                        sh.outcome(format!("prefix then transport error: {}", match &end { ReadEnd::Error(_) => "error", ReadEnd::CleanEof => "clean end", ReadEnd::Pending => "pending", ReadEnd::Panic(_) => "panic" }));
+                        if !ok {
+                            let class = match &end {
+                                ReadEnd::Panic(_) => "strict-prefix-panics",
+                                ReadEnd::CleanEof => "stream-ending-inside-a-frame-reported-as-clean-end",
+                                _ => "strict-prefix-yields-wrong-frames",
+                            };
+                            viol8(sh, class, format!("prefix of {} bytes, then the transport reports {:?}: decoded {} then {:?}", k, kind, show_frames(&got), end), frames, json!({"prefix": k, "whole": whole, "then": format!("{:?}", kind)}));
+                        }
+                    }
+                }
             }
         }
         if sh.samples.len() < 2 {
@@ -1198,6 +1260,7 @@ pub fn worker(job: &Job) -> Shard {
     match job.prop.as_str() {
         "C07" => {
             c07_numbers(job, &mut sh);
+            c07_substitutions(job, &mut sh);
             c07_sized(job, &mut sh);
             c07_deep(job, &mut sh);
             c07_strings(job, &mut sh, t0);
